@@ -770,6 +770,20 @@ pub fn fresh<B: Backend>(rec: &mut Recorder, st: &mut Stats, cfg: &Cfg) {
         pke_seal::<B>(rec, st, k, &w.recipients[0].public, None);
         keygen::<B>(rec, "local", None);
     }
+    // the same operations on freshly started threads, one after the other, still in the same scenario
+    let m = if cfg.thorough { 300 } else { 40 };
+    for _ in 0..3 {
+        std::thread::scope(|sc| {
+            sc.spawn(|| {
+                for _ in 0..m {
+                    pie_wrap::<B, Local>(rec, st, k, k, None);
+                    pw_wrap::<B, Local>(rec, st, k, b"same password", Some(cost), None);
+                    pke_seal::<B>(rec, st, k, &w.recipients[0].public, None);
+                    keygen::<B>(rec, "local", None);
+                }
+            });
+        });
+    }
     // secret-key generation (RSA for v1 is slow: a handful)
     let ns = if B::VER == 1 { if cfg.thorough { 40 } else { 3 } } else { n };
     for _ in 0..ns {
